@@ -315,7 +315,8 @@ macro "ch_auto" : tactic => `(tactic| repeat' (first | rfl | contradiction | ch_
   ch_step; · rfl
   ch_step; · rfl
   ch_step; · rfl
-  rename_i v _ _ _ _ _ _
+  ch_step; · rfl
+  rename_i v _ _ _ _ _ _ _
   by_cases hj : (!v.jailed) = true
   · simp only [if_pos hj]
     cases jail _ _ with
